@@ -72,8 +72,12 @@ func add(
 				// avoid network blocking
 				go target.EvAdd(e, names, nil)
 			}
-		} else {
+		} else if target.IsLocal() {
+			// keep the order of the source's transitions
 			// TODO source tx ID missings
+			target.EvAdd(e, names, e.Args)
+		} else {
+			// avoid network blocking
 			go target.EvAdd(e, names, e.Args)
 		}
 	}
@@ -127,8 +131,12 @@ func remove(
 				// avoid network blocking
 				go target.EvRemove1(e, targetState, nil)
 			}
-		} else {
+		} else if target.IsLocal() {
+			// keep the order of the source's transitions
 			// TODO source tx ID missing
+			target.EvRemove1(e, targetState, e.Args)
+		} else {
+			// avoid network blocking
 			go target.EvRemove1(e, targetState, e.Args)
 		}
 	}
